@@ -119,8 +119,7 @@ Section AckHalf.
     splits.
     all: try (subst s6 s5 s2 s1; now sysr).
     all: try reflexivity.
-    - intros y. subst s6 s5 s2 s1. now sysr.
-    - intros y. subst s6 s5 s2 s1. now sysr.
+    all: try (intros y; subst s6 s5 s2 s1; now sysr).
     - unfold sending. subst tx3 tx2 tx1. tcb_simpl.
       splits; try assumption; try reflexivity; try congruence; try lia.
       exists lp, rp, b. exact F.
